@@ -2,7 +2,7 @@
    Statements only; proofs in Proofs/C13_*.v.  Model: Model/Relax.v (do_relaxations, _apply_relaxation_holes)
    on top of Model/Reloc.v (can_shrink, do_shrink, apply); Spec: Spec/RelocSpec.v (jal / c.j / c.jal). *)
 From PV Require Import Lib.Py Spec.RelocSpec Gen.bitfun Model.Reloc Model.Relax
-  Proofs.C11_final Proofs.C13_relax Proofs.C13_final Proofs.C13_compose.
+  Proofs.C11_final Proofs.C13_relax Proofs.C13_final Proofs.C13_compose Proofs.C13_holes.
 Open Scope Z_scope.
 
 (* byte deletion (reverse order, as the code does it) realises new_off o = o - (sizes of the holes that start
@@ -113,6 +113,32 @@ Theorem c13_relax_link_site_kept : forall k A holes data d' b addr' S',
     bits (le_word d3) 0 12 = bits (le_word (sliceZ data b (b + 4))) 0 12.
 Proof. exact relax_link_site_kept. Qed.
 Print Assumptions c13_relax_link_site_kept.
+
+(* ---- wave 5: the hole lists do_relaxations builds satisfy the premises of the theorems above.  For ANY object on
+   which the candidate loop of do_relaxations (scan_relocs: can_shrink, do_shrink, the three asserts, byte patching)
+   succeeds: if the relocations of section [sec] sit at non-negative offsets at least 4 bytes apart (distinct 32-bit
+   instruction sites; [apart (offs_of sec rels)]), then holes_map[sec] after sorted() is sorted, pairwise disjoint and
+   made of positive holes — whatever the order of the relocation list and whichever subset is shrunk *)
+Theorem c13_holes_of_relaxation_ok : forall secs syms rels secs' lst sec,
+  scan_relocs secs syms rels = Ok (secs', lst) -> apart (offs_of sec rels) ->
+  holes_ok 0 (holes_of lst sec) /\ holes_pos (holes_of lst sec).
+Proof. exact holes_of_ok. Qed.
+Print Assumptions c13_holes_of_relaxation_ok.
+
+(* ... and every hole is exactly the second halfword of a relocation site of that section *)
+Theorem c13_holes_are_site_halves : forall secs syms rels secs' lst sec h,
+  scan_relocs secs syms rels = Ok (secs', lst) -> In h (holes_of lst sec) ->
+  exists r, In r rels /\ r_sec r = sec /\ h = (r_off r + 2, 2).
+Proof. exact holes_of_sites. Qed.
+Print Assumptions c13_holes_are_site_halves.
+
+Example c13_holes_nonvacuous :
+  let secs := [mkSec 1 0 [111; 0; 0; 0; 19; 0; 0; 0; 111; 0; 0; 0; 19; 0; 0; 0]] in
+  let syms := [mkSym 1 false (Some 1) 4] in
+  let rels := [mkRel RvcCBImm11 1 1 8 0; mkRel RvcCBImm11 1 1 0 0] in
+  (apart (offs_of 1 rels) /\
+   exists secs' lst, scan_relocs secs syms rels = Ok (secs', lst) /\ holes_of lst 1 = [(2, 2); (10, 2)])%type.
+Proof. exact holes_of_nonvacuous. Qed.
 
 Example c13_nonvacuous :
   holes_ok 0 [(2, 2); (10, 2)] /\ punch [1; 2; 3; 4; 5; 6; 7; 8; 9; 10; 11; 12] [(2, 2); (10, 2)] = Ok [1; 2; 5; 6; 7; 8; 9; 10] /\
